@@ -8,7 +8,7 @@
       of boolean constants to the four flags, `await self.<sub-operation>(...)`, if / while / try-finally / return.  The
       skeletons are TRANSLATED from the source on every run (harness/translate/c30_guard.py -> HailG.C30.Guard) and
       proved equal to the hand-written [update_body] / [prefix] below (CI/GuardTie.v).
-    * [run] is a small-step interpreter with a continuation stack (Python semantics of return / exception / finally).
+    * [seg_run] is a small-step interpreter with a continuation stack (Python semantics of return / exception / finally).
       It runs ONE ATOMIC SEGMENT: asyncio is cooperative, a coroutine is pre-empted only where it awaits something that
       suspends; `await self._update(...)` itself (a coroutine call) does not suspend.  Every `SAwait` is treated as a
       suspension point (a sub-operation that completes without suspending is the special case in which the scheduler
